@@ -230,6 +230,15 @@ func genInboxF(r *rng, ty string, k int, focus bool) *scenario {
 				h = pick(r, []string{"https://remote.example:444", "https://REMOTE.example", "https://sub.remote.example", "https://other.example", local})
 			}
 			o := jmap{"type": "Note", "id": fmt.Sprintf("%s/notes/%d-%d", h, k, i), "content": "updated"}
+			if focus && k%8 >= 4 && (i == foreignAt || (foreignAt < 0 && i == 1)) {
+				// a Link-typed object: its id decides the origin, whatever its href says (the foreign one carries an href on
+				// the activity's own host; one of the activity's own origin carries a foreign href)
+				other := remote
+				if h == remote {
+					other = "https://other.example"
+				}
+				o = jmap{"type": "Mention", "id": fmt.Sprintf("%s/mentions/%d-%d", h, k, i), "href": fmt.Sprintf("%s/notes/%d-%d", other, k, i), "name": "@x"}
+			}
 			if ty == "Delete" && r.chance(1, 2) {
 				objs = append(objs, o["id"])
 			} else {
@@ -244,6 +253,12 @@ func genInboxF(r *rng, ty string, k int, focus bool) *scenario {
 		target := alice
 		if r.chance(1, 4) {
 			target = actorID(local, "bob")
+		}
+		if focus && k%4 == 2 { // several following actors, the first of which follows already: every one of them ends up a follower
+			target = alice
+			cfg.OnFollow = 1
+			act["actor"] = []interface{}{sender, actorID(remote, "zed"), iriOrEmbedded(r, actorID(remote2, "frank"))}
+			w.Followers[alice] = jmap{"@context": asCtx, "type": "Collection", "id": alice + "/followers", "items": []interface{}{actorID(remote, "erin"), sender}}
 		}
 		if r.chance(1, 4) {
 			act["object"] = []interface{}{actorID(remote, "erin"), iriOrEmbedded(r, target)}
@@ -356,6 +371,11 @@ func genInboxF(r *rng, ty string, k int, focus bool) *scenario {
 					actors = []interface{}{actorID(remote, "zed")}
 				} else {
 					actors = []interface{}{sender}
+				}
+			}
+			if focus && k%2 == 1 || r.chance(1, 3) { // the undone activity names its actors as embedded values
+				for ai := range actors {
+					actors[ai] = jmap{"type": "Person", "id": actors[ai]}
 				}
 			}
 			w.Remote[lid] = remoteDoc{Kind: "doc", Doc: jmap{"@context": asCtx, "type": "Like", "id": lid, "actor": one(actors), "object": local + "/notes/1"}}
@@ -709,6 +729,7 @@ func genOutbox(r *rng, ty string, k int) *scenario {
 	}
 	sc := outboxScenario("outbox:"+ty, w, cfg, body)
 	sc.Tags[ty] = true
+	sc.PreHeaders = k%4 == 2
 	if ty == "CreateBig" {
 		sc.NoReplay = true
 	}
@@ -936,6 +957,7 @@ func genGet(r *rng, kind string, k int) *scenario {
 	cfg := defaultCfg()
 	alice := actorID(local, "alice")
 	sc := &scenario{Family: "get:" + kind, Cfg: cfg, World: w, Method: "GET", Accept: apContentType, Tags: map[string]bool{}}
+	sc.PreHeaders = k%3 == 1 // the application has already put headers of its own on the response
 	items := []interface{}{}
 	n := r.intn(12)
 	for i := 0; i < n; i++ {
@@ -1038,7 +1060,7 @@ func gateScenarios(r *rng, sample int) []*scenario {
 					if entry != "postinbox" && block != "no" {
 						continue
 					}
-					for _, method := range []string{"GET", "POST", "HEAD", "PUT"} {
+					for _, method := range []string{"GET", "POST", "HEAD", "PUT", "post", "Get"} { // method tokens are case-sensitive
 						for hi, hv := range headerVariants {
 							for bi := range bodies {
 								if (entry == "getinbox" || entry == "getoutbox" || entry == "handler") && bi > 0 {
@@ -1068,7 +1090,7 @@ func gateScenarios(r *rng, sample int) []*scenario {
 								default:
 									sc.Path = "/notes/1"
 								}
-								if method == "GET" || method == "HEAD" {
+								if method == "GET" || method == "HEAD" || method == "Get" {
 									sc.Accept = hv
 									if r.chance(1, 3) {
 										sc.ContentType = apContentType // the other header must not matter
@@ -1081,6 +1103,7 @@ func gateScenarios(r *rng, sample int) []*scenario {
 								}
 								b, raw := bodies[bi]()
 								sc.Body, sc.RawBody = b, raw
+								sc.PreHeaders = (len(all)+hi)%4 == 1
 								_ = alice
 								all = append(all, sc)
 							}
@@ -1281,6 +1304,17 @@ func genDeliver(r *rng, k int) *scenario {
 			}
 		}
 		body[p] = one(l)
+	}
+	if k%4 == 1 && len(actors) >= 2 { // IRIs that differ only in the case of a path letter are different IRIs: two such inboxes both
+		// receive the activity, and an inbox that equals the sender's own up to case is no reason to leave its owner out
+		last := actors[len(actors)-1]
+		p0, p1 := person(actors[0]), person(actors[1])
+		p1["inbox"] = strings.Replace(p0["inbox"].(string), "/actors/a0", "/actors/A0", 1)
+		w.Remote[actors[0]], w.Remote[actors[1]] = remoteDoc{Kind: "doc", Doc: p0}, remoteDoc{Kind: "doc", Doc: p1}
+		delete(w.InboxForActor, actors[0])
+		delete(w.InboxForActor, actors[1])
+		w.InboxForActor[last] = strings.Replace(inboxOf(alice), "/alice/", "/Alice/", 1)
+		body["to"] = []interface{}{actors[0], actors[1], last}
 	}
 	sc := outboxScenario("deliver:"+body["type"].(string), w, cfg, body)
 	sc.Entry = "send"
@@ -1655,6 +1689,31 @@ func runForward(r *rng, k int) (scs []*scenario, ress []runResult) {
 			l = append(l, pick(r, pool))
 		}
 		act[p] = one(l)
+	}
+	switch k % 6 {
+	case 4: // one value reached twice, first on a long path where the depth limit stops the search just before it is examined, then
+		// on a shorter path where what it replies to (owned) is within the limit
+		x := fmt.Sprintf("%s/chain/%d/shared", remote, k)
+		ownedNote := local + "/notes/1"
+		w.Remote[x] = remoteDoc{Kind: "doc", Doc: jmap{"@context": asCtx, "type": "Note", "id": x, "content": "shared", "inReplyTo": ownedNote}}
+		e1a := jmap{"type": "Note", "id": fmt.Sprintf("%s/chain/%d/e1a", remote, k), "content": "e1a", "inReplyTo": x}
+		e1 := jmap{"type": "Note", "id": fmt.Sprintf("%s/chain/%d/e1", remote, k), "content": "e1", "inReplyTo": e1a}
+		e2 := jmap{"type": "Note", "id": fmt.Sprintf("%s/chain/%d/e2", remote, k), "content": "e2", "inReplyTo": x}
+		delete(act, "inReplyTo")
+		act["type"] = "Create"
+		act["object"] = []interface{}{e1, e2}
+		act["to"] = local + "/cols/1"
+		cfg.MaxForwarding = 3
+		cfg.Filter = "all"
+	case 5: // two owned collections whose ids differ only in the fragment are two collections
+		for _, f := range []string{"friends", "family"} {
+			cid := local + "/lists#" + f
+			w.Store[cid] = jmap{"@context": asCtx, "type": "Collection", "id": cid, "items": []interface{}{actorID(remote, "member-of-"+f), actorID(remote, "carol")}}
+			w.Owned[cid] = true
+		}
+		act["to"] = []interface{}{local + "/lists#friends", alice}
+		act["cc"] = local + "/lists#family"
+		cfg.Filter = "all"
 	}
 	n := 1 + r.intn(3)
 	for j := 0; j < n; j++ {
